@@ -9,9 +9,8 @@
 
   What is transcribed: the order of the checks (file, cycle test, referenced entity, the entity's own import, its
   children / units), the cycle test on the *files* of the epochs that are on the history stack (`path`: the source
-  files of the ancestors; the new epoch's own source `cur` is pushed only after the test), local units followed
-  through their children with a visit list (`loc`, the fix of the pinned tree), the units of every local component of
-  an imported component's subtree, and the per-item handling of `resolveImports` (every imported item of the origin is
+  files of the ancestors; the new epoch's own source `cur` is pushed only after the test), local units accepted
+  as they are, the units of every local component of an imported component's subtree, and the per-item handling of `resolveImports` (every imported item of the origin is
   tried; one issue per item that fails).  Recursion is by fuel; `Cellml/Import/Proofs.lean` shows that the fuel
   `fuelFor w` is never exhausted.
 
@@ -63,23 +62,14 @@ def findC (cs : List CompE) (n : String) : Option CompE := cs.find? (·.name == 
 
 def filesOf (w : World) : List String := w.map (·.1)
 
-/-- `fetchUnits`; `path` = source files of the epochs on the history stack, `cur` = file of `u`,
-    `loc` = local units entered since the last import step, `old` = local units entered before it (all of them are on
-    the current chain of references): meeting one of `loc` again closes a cycle of local references (nothing to
-    import), meeting one of `old` again closes a cycle through an import -/
-def fetchUnits : Nat → World → List String → String → List (String × String) → List (String × String) → UnitsE → R
-  | 0, _, _, _, _, _, _ => .fuel
-  | n + 1, w, path, cur, loc, old, u =>
+/-- `fetchUnits`; `path` = source files of the epochs on the history stack, `cur` = file of `u`.  Units that are not
+    imported are accepted without looking at the units they are defined with (only the direct children of the target
+    of an import are looked at): see known finding C07-imports-below-local-units -/
+def fetchUnits : Nat → World → List String → String → UnitsE → R
+  | 0, _, _, _, _ => .fuel
+  | n + 1, w, path, cur, u =>
     match u.imp with
-    | none =>
-      if loc.contains (cur, u.name) then .ok else
-      if old.contains (cur, u.name) then .fail .cycle else
-      match w.lookup cur with
-      | some (.model us _) =>
-        allR (fun k => match findU us k with
-          | none => .ok
-          | some ku => fetchUnits n w path cur ((cur, u.name) :: loc) old ku) u.kids
-      | _ => .ok
+    | none => .ok
     | some (url, ref) =>
       match w.lookup url with
       | none => .fail .missingFile
@@ -90,10 +80,10 @@ def fetchUnits : Nat → World → List String → String → List (String × St
         match findU us ref with
         | none => .fail .missingUnits
         | some su =>
-          seqR (fetchUnits n w (path ++ [cur]) url [] (loc ++ old) su) fun _ =>
+          seqR (fetchUnits n w (path ++ [cur]) url su) fun _ =>
           allR (fun k => match findU us k with
             | none => .fail .missingUnits
-            | some ku => if ku.imp.isSome then fetchUnits n w (path ++ [cur]) url [] (loc ++ old) ku else .ok) su.kids
+            | some ku => if ku.imp.isSome then fetchUnits n w (path ++ [cur]) url ku else .ok) su.kids
 
 /-- `Component::requiresImports` -/
 def reqImp : Nat → List CompE → CompE → Bool
@@ -133,7 +123,7 @@ def fetchComponent : Nat → World → List String → String → CompE → R
               | some kc => fetchComponent n w (path ++ [cur]) url kc) sc.kids) fun _ =>
             allR (fun un => match findU us' un with
               | none => .fail .missingComponent
-              | some uu => fetchUnits n w (path ++ [cur]) url [] [] uu) ((subUnits cs'.length cs' sc).eraseDups)
+              | some uu => fetchUnits n w (path ++ [cur]) url uu) ((subUnits cs'.length cs' sc).eraseDups)
     | _ => .ok
 
 /-- all (file, units name) pairs of the world -/
@@ -154,7 +144,7 @@ def fuelFor (w : World) : Nat := (2 * w.length + 1) * (compBound w + 1) + compBo
 def resolve (w : World) (origin : String) : List R :=
   match w.lookup origin with
   | some (.model us cs) =>
-    ((us.filter (·.imp.isSome)).map fun u => fetchUnits (fuelFor w) w [] origin [] [] u)
+    ((us.filter (·.imp.isSome)).map fun u => fetchUnits (fuelFor w) w [] origin u)
       ++ ((cs.filter (·.imp.isSome)).map fun c => fetchComponent (fuelFor w) w [] origin c)
   | _ => []
 
